@@ -973,4 +973,544 @@ theorem C20_table_facts :
     by decide +kernel, by decide +kernel, by decide +kernel, by decide +kernel, by decide +kernel, ?_⟩
   decide +kernel
 
+/-! ## Part G — rejection of structurally invalid documents, at the level of `parse` -/
+
+def hasKey (p : DNode) (k : Str) : Bool := (Deb.get p k).isSome
+
+/-- a successful `from_paragraph` implies that every mandatory field was there -/
+theorem fromFields_ok_mandatory (g : Str → Option Str) (spec : Spec) (v : SV)
+    (h : fromFields g spec = .ok v) : ∀ f ∈ spec, f.optional = false → (g f.key).isSome = true := by
+  intro f hf hm
+  cases hg : g f.key with
+  | some t => rfl
+  | none =>
+    obtain ⟨pre, post, rfl⟩ := List.append_of_mem hf
+    -- either an earlier field fails or this one does
+    cases hpre : fromFields g pre with
+    | error e =>
+      have : fromFields g (pre ++ f :: post) = .error e := by
+        clear h hf
+        induction pre with
+        | nil => simp [fromFields] at hpre
+        | cons a as ih =>
+          simp only [List.cons_append, fromFields] at hpre ⊢
+          cases hr : readField g a with
+          | error e' => rw [hr] at hpre; simp at hpre; simp [hpre]
+          | ok x =>
+            rw [hr] at hpre
+            simp only at hpre ⊢
+            cases hf' : fromFields g as with
+            | ok xs => rw [hf'] at hpre; simp at hpre
+            | error e' =>
+              rw [hf'] at hpre; simp at hpre; subst hpre
+              rw [ih hf']
+      rw [this] at h; simp at h
+    | ok xs =>
+      have := C16.fromFields_append_ok g pre (f :: post) xs hpre
+      rw [this] at h
+      simp [fromFields, readField, hg, hm] at h
+
+theorem fromLL_ok_mandatory (spec : Spec) (p : DNode) (v : SV) (h : fromLL spec p = .ok v) :
+    ∀ f ∈ spec, f.optional = false → hasKey p f.key = true := by
+  unfold fromLL liftMsg at h
+  cases hf : fromFields (Deb.get p) spec with
+  | ok x => exact fromFields_ok_mandatory _ spec x hf
+  | error e => rw [hf] at h; simp at h
+
+/-- number of source-class paragraphs: no `Package`, but `Source` -/
+def isSourcePara (p : DNode) : Bool := !hasKey p kPackage && hasKey p kSource
+def isNeitherControl (p : DNode) : Bool := !hasKey p kPackage && !hasKey p kSource
+
+theorem controlLoop_ok_inv (S B : Spec) (ps : List DNode) (src0 : Option SV) (bins0 : List SV) (v : TV)
+    (h : controlLoop S B ps src0 bins0 = .ok v) :
+    (∀ p ∈ ps, isNeitherControl p = false)
+    ∧ ((ps.filter isSourcePara).length + (if src0.isSome then 1 else 0) = 1)
+    ∧ (∀ p ∈ ps, hasKey p kPackage = true → ∃ b, fromLL B p = .ok b)
+    ∧ (∀ p ∈ ps, isSourcePara p = true → ∃ s, fromLL S p = .ok s) := by
+  induction ps generalizing src0 bins0 with
+  | nil =>
+    simp only [controlLoop] at h
+    cases src0 with
+    | none => simp at h
+    | some s => simp
+  | cons p ps ih =>
+    simp only [controlLoop] at h
+    by_cases hp : (Deb.get p kPackage).isSome = true
+    · simp only [hp, ↓reduceIte] at h
+      cases hb : fromLL B p with
+      | error e => rw [hb] at h; simp at h
+      | ok b =>
+        rw [hb] at h
+        obtain ⟨h1, h2, h3, h4⟩ := ih _ _ h
+        have hk : hasKey p kPackage = true := hp
+        refine ⟨?_, ?_, ?_, ?_⟩
+        · intro q hq; simp only [List.mem_cons] at hq
+          rcases hq with rfl | hq
+          · simp [isNeitherControl, hk]
+          · exact h1 q hq
+        · simpa [List.filter_cons, isSourcePara, hk] using h2
+        · intro q hq hqk; simp only [List.mem_cons] at hq
+          rcases hq with rfl | hq
+          · exact ⟨b, hb⟩
+          · exact h3 q hq hqk
+        · intro q hq hqs; simp only [List.mem_cons] at hq
+          rcases hq with rfl | hq
+          · simp [isSourcePara, hk] at hqs
+          · exact h4 q hq hqs
+    · have hk : hasKey p kPackage = false := by simpa [hasKey] using hp
+      simp only [hp, Bool.false_eq_true, ↓reduceIte] at h
+      by_cases hs : (Deb.get p kSource).isSome = true
+      · simp only [hs, ↓reduceIte] at h
+        cases src0 with
+        | some s0 => simp at h
+        | none =>
+          simp only [Option.isSome_none, Bool.false_eq_true, ↓reduceIte] at h
+          cases hsv : fromLL S p with
+          | error e => rw [hsv] at h; simp at h
+          | ok sv =>
+            rw [hsv] at h
+            obtain ⟨h1, h2, h3, h4⟩ := ih _ _ h
+            have hks : hasKey p kSource = true := hs
+            refine ⟨?_, ?_, ?_, ?_⟩
+            · intro q hq; simp only [List.mem_cons] at hq
+              rcases hq with rfl | hq
+              · simp [isNeitherControl, hks]
+              · exact h1 q hq
+            · simp only [Option.isSome_some, ↓reduceIte] at h2
+              have hsp : isSourcePara p = true := by simp [isSourcePara, hk, hks]
+              simp only [List.filter_cons, hsp, ↓reduceIte, List.length_cons, Option.isSome_none,
+                Bool.false_eq_true]
+              omega
+            · intro q hq hqk; simp only [List.mem_cons] at hq
+              rcases hq with rfl | hq
+              · rw [hk] at hqk; simp at hqk
+              · exact h3 q hq hqk
+            · intro q hq hqs; simp only [List.mem_cons] at hq
+              rcases hq with rfl | hq
+              · exact ⟨sv, hsv⟩
+              · exact h4 q hq hqs
+      · simp [hs] at h
+
+/-- **control file rejected**: whenever the lossless reader accepts the text but (a) some paragraph
+    has neither `Package` nor `Source`, or (b) the number of source paragraphs (no `Package`, has
+    `Source`) is not exactly one, or (c) a paragraph lacks a mandatory field of the struct it is read
+    as — `Control::from_str` returns an error -/
+theorem C20_reject_control (S B : Spec) (s : Str) (ps : List DNode) (hps : llParas s = .ok ps)
+    (hbad : (∃ p ∈ ps, isNeitherControl p = true)
+      ∨ (ps.filter isSourcePara).length ≠ 1
+      ∨ (∃ p ∈ ps, hasKey p kPackage = true ∧ ∃ f ∈ B, f.optional = false ∧ hasKey p f.key = false)
+      ∨ (∃ p ∈ ps, isSourcePara p = true ∧ ∃ f ∈ S, f.optional = false ∧ hasKey p f.key = false)) :
+    ∃ e, TypedDoc.parse (.control S B) s = .error e := by
+  simp only [TypedDoc.parse, parseControl, hps]
+  cases hr : controlLoop S B ps none [] with
+  | error e => exact ⟨e, rfl⟩
+  | ok v =>
+    exfalso
+    obtain ⟨h1, h2, h3, h4⟩ := controlLoop_ok_inv S B ps none [] v hr
+    rcases hbad with ⟨p, hp, hn⟩ | hcnt | ⟨p, hp, hk, f, hf, hm, hmiss⟩ | ⟨p, hp, hk, f, hf, hm, hmiss⟩
+    · rw [h1 p hp] at hn; simp at hn
+    · simp at h2; exact hcnt h2
+    · obtain ⟨b, hb⟩ := h3 p hp hk
+      rw [fromLL_ok_mandatory B p b hb f hf hm] at hmiss; simp at hmiss
+    · obtain ⟨sv, hsv⟩ := h4 p hp hk
+      rw [fromLL_ok_mandatory S p sv hsv f hf hm] at hmiss; simp at hmiss
+
+theorem copyrightLoop_ok_inv (F L : Spec) (ps : List DNode) (fs ls : List SV) (r : List SV × List SV)
+    (h : copyrightLoop F L ps fs ls = .ok r) :
+    (∀ p ∈ ps, hasKey p kFiles = true ∨ hasKey p kLicense = true)
+    ∧ (∀ p ∈ ps, hasKey p kFiles = true → ∃ f, fromLL F p = .ok f)
+    ∧ (∀ p ∈ ps, hasKey p kFiles = false → ∃ l, fromLL L p = .ok l) := by
+  induction ps generalizing fs ls with
+  | nil => simp
+  | cons p ps ih =>
+    simp only [copyrightLoop] at h
+    by_cases hf : (Deb.get p kFiles).isSome = true
+    · simp only [hf, ↓reduceIte] at h
+      cases hv : fromLL F p with
+      | error e => rw [hv] at h; simp at h
+      | ok x =>
+        rw [hv] at h
+        obtain ⟨h1, h2, h3⟩ := ih _ _ h
+        have hk : hasKey p kFiles = true := hf
+        refine ⟨?_, ?_, ?_⟩
+        · intro q hq; simp only [List.mem_cons] at hq
+          rcases hq with rfl | hq
+          · left; exact hk
+          · exact h1 q hq
+        · intro q hq hqk; simp only [List.mem_cons] at hq
+          rcases hq with rfl | hq
+          · exact ⟨x, hv⟩
+          · exact h2 q hq hqk
+        · intro q hq hqk; simp only [List.mem_cons] at hq
+          rcases hq with rfl | hq
+          · rw [hk] at hqk; simp at hqk
+          · exact h3 q hq hqk
+    · have hk : hasKey p kFiles = false := by simpa [hasKey] using hf
+      simp only [hf, Bool.false_eq_true, ↓reduceIte] at h
+      by_cases hl : (Deb.get p kLicense).isSome = true
+      · simp only [hl, ↓reduceIte] at h
+        cases hv : fromLL L p with
+        | error e => rw [hv] at h; simp at h
+        | ok x =>
+          rw [hv] at h
+          obtain ⟨h1, h2, h3⟩ := ih _ _ h
+          refine ⟨?_, ?_, ?_⟩
+          · intro q hq; simp only [List.mem_cons] at hq
+            rcases hq with rfl | hq
+            · right; exact hl
+            · exact h1 q hq
+          · intro q hq hqk; simp only [List.mem_cons] at hq
+            rcases hq with rfl | hq
+            · rw [hk] at hqk; simp at hqk
+            · exact h2 q hq hqk
+          · intro q hq hqk; simp only [List.mem_cons] at hq
+            rcases hq with rfl | hq
+            · exact ⟨x, hv⟩
+            · exact h3 q hq hqk
+      · simp [hl] at h
+
+/-- **copyright file rejected**: the text does not start with `Format:`, or it has no paragraph,
+    or a paragraph after the header has neither `Files` nor `License`, or a paragraph lacks a
+    mandatory field of the struct it is read as (header / Files paragraph / licence paragraph) -/
+theorem C20_reject_copyright (H F L : Spec) (s : Str)
+    (hbad : formatGate.isPrefixOf s = false
+      ∨ llParas s = .ok []
+      ∨ ∃ p ps, llParas s = .ok (p :: ps) ∧
+          ((∃ q ∈ ps, hasKey q kFiles = false ∧ hasKey q kLicense = false)
+          ∨ (∃ f ∈ H, f.optional = false ∧ hasKey p f.key = false)
+          ∨ (∃ q ∈ ps, hasKey q kFiles = true ∧ ∃ f ∈ F, f.optional = false ∧ hasKey q f.key = false)
+          ∨ (∃ q ∈ ps, hasKey q kFiles = false ∧ ∃ f ∈ L, f.optional = false ∧ hasKey q f.key = false))) :
+    ∃ e, TypedDoc.parse (.copyright H F L) s = .error e := by
+  simp only [TypedDoc.parse, parseCopyright]
+  by_cases hg : formatGate.isPrefixOf s = false
+  · refine ⟨.msg eNotMachine, ?_⟩
+    simp [hg]
+  · simp only [hg, Bool.false_eq_true, ↓reduceIte]
+    rcases hbad with h0 | h0 | ⟨p, ps, hps, hrest⟩
+    · exact absurd h0 hg
+    · refine ⟨.msg eNoParagraphs, ?_⟩
+      simp [h0]
+    · simp only [hps]
+      cases hh : fromLL H p with
+      | error e => exact ⟨e, rfl⟩
+      | ok hv =>
+        simp only
+        cases hr : copyrightLoop F L ps [] [] with
+        | error e => exact ⟨e, rfl⟩
+        | ok r =>
+          exfalso
+          obtain ⟨h1, h2, h3⟩ := copyrightLoop_ok_inv F L ps [] [] r hr
+          rcases hrest with ⟨q, hq, hf, hl⟩ | ⟨f, hf, hm, hmiss⟩ | ⟨q, hq, hk, f, hf, hm, hmiss⟩ | ⟨q, hq, hk, f, hf, hm, hmiss⟩
+          · rcases h1 q hq with h | h
+            · rw [hf] at h; simp at h
+            · rw [hl] at h; simp at h
+          · rw [fromLL_ok_mandatory H p hv hh f hf hm] at hmiss; simp at hmiss
+          · obtain ⟨x, hx⟩ := h2 q hq hk
+            rw [fromLL_ok_mandatory F q x hx f hf hm] at hmiss; simp at hmiss
+          · obtain ⟨x, hx⟩ := h3 q hq hk
+            rw [fromLL_ok_mandatory L q x hx f hf hm] at hmiss; simp at hmiss
+
+/-- **removal record / buildinfo / DEP-3 header rejected**: no paragraph, or the first paragraph
+    lacks a mandatory field -/
+theorem C20_reject_losslessPara (spec : Spec) (s : Str)
+    (hbad : (∃ t, readStrict s = .ok t ∧ paragraphs t = [])
+      ∨ ∃ p, llPara s = .ok p ∧ ∃ f ∈ spec, f.optional = false ∧ hasKey p f.key = false) :
+    (∃ e, TypedDoc.parse (.losslessPara spec) s = .error e) ∧ (∃ e, TypedDoc.parse (.dep3 spec) s = .error e) := by
+  rcases hbad with ⟨t, ht, hp⟩ | ⟨p, hp, f, hf, hm, hmiss⟩
+  · have := C20_rejects_no_paragraph spec s t ht hp
+    exact ⟨⟨_, this.1⟩, ⟨_, this.2⟩⟩
+  · simp only [TypedDoc.parse, parseLosslessPara, parseDep3, hp]
+    cases hv : fromLL spec p with
+    | error e => exact ⟨⟨e, rfl⟩, ⟨e, rfl⟩⟩
+    | ok v =>
+      exfalso
+      rw [fromLL_ok_mandatory spec p v hv f hf hm] at hmiss; simp at hmiss
+
+/-- **apt stanza rejected**: the lossy reader sees no paragraph or more than one, or the paragraph
+    lacks a mandatory field -/
+theorem C20_reject_stanza (spec : Spec) (s : Str)
+    (hbad : Lossy.read s = .ok [] ∨ (∃ p q r, Lossy.read s = .ok (p :: q :: r))
+      ∨ ∃ p, Lossy.read s = .ok [p] ∧ ∃ f ∈ spec, f.optional = false ∧ Lossy.pget p f.key = none) :
+    ∃ e, TypedDoc.parse (.lossyPara spec) s = .error e := by
+  rcases hbad with h | ⟨p, q, r, h⟩ | ⟨p, hp, f, hf, hm, hmiss⟩
+  · exact ⟨_, (C20_rejects_stanza_count spec s).1 h⟩
+  · exact ⟨_, (C20_rejects_stanza_count spec s).2 p q r h⟩
+  · simp only [TypedDoc.parse, parseLossyPara, lyPara, Lossy.readPara, hp, fromLY, liftMsg]
+    cases hv : fromFields (Lossy.pget p) spec with
+    | error e => exact ⟨_, rfl⟩
+    | ok v =>
+      exfalso
+      have := fromFields_ok_mandatory _ spec v hv f hf hm
+      rw [hmiss] at this; simp at this
+
+theorem reposLoop_ok_inv (R : Spec) (ps : List DNode) (l : List SV) (h : reposLoop R ps = .ok l) :
+    ∀ p ∈ ps, ∃ r, fromLL R p = .ok r := by
+  induction ps generalizing l with
+  | nil => simp
+  | cons p ps ih =>
+    simp only [reposLoop] at h
+    cases hv : fromLL R p with
+    | error e => rw [hv] at h; simp at h
+    | ok r =>
+      rw [hv] at h
+      simp only at h
+      cases hr : reposLoop R ps with
+      | error e => rw [hr] at h; simp at h
+      | ok rs =>
+        intro q hq
+        simp only [List.mem_cons] at hq
+        rcases hq with rfl | hq
+        · exact ⟨r, hv⟩
+        · exact ih rs hr q hq
+
+/-- **APT sources list rejected**: some paragraph lacks a mandatory field of `Repository` -/
+theorem C20_reject_repos (R : Spec) (s : Str) (ps : List DNode) (hps : llParas s = .ok ps)
+    (hbad : ∃ p ∈ ps, ∃ f ∈ R, f.optional = false ∧ hasKey p f.key = false) :
+    ∃ e, TypedDoc.parse (.repos R) s = .error e := by
+  simp only [TypedDoc.parse, parseRepos, hps]
+  cases hr : reposLoop R ps with
+  | error e => exact ⟨e, rfl⟩
+  | ok l =>
+    exfalso
+    obtain ⟨p, hp, f, hf, hm, hmiss⟩ := hbad
+    obtain ⟨r, hv⟩ := reposLoop_ok_inv R ps l hr p hp
+    rw [fromLL_ok_mandatory R p r hv f hf hm] at hmiss; simp at hmiss
+
+/-- every kind: a text the deb822 reader itself rejects is rejected -/
+theorem C20_reject_reader (s : Str) (h : ∀ t, readStrict s ≠ .ok t) (S B H F L spec R : Spec) :
+    TypedDoc.parse (.control S B) s = .error .reader
+    ∧ (formatGate.isPrefixOf s = true → TypedDoc.parse (.copyright H F L) s = .error .reader)
+    ∧ TypedDoc.parse (.losslessPara spec) s = .error .reader
+    ∧ TypedDoc.parse (.dep3 spec) s = .error .reader
+    ∧ TypedDoc.parse (.repos R) s = .error .reader := by
+  have hr : llParas s = .error .reader ∧ llPara s = .error .reader := by
+    unfold llParas llPara
+    cases hs : readStrict s with
+    | ok t => exact absurd hs (h t)
+    | error e => exact ⟨rfl, rfl⟩
+  refine ⟨by simp [TypedDoc.parse, parseControl, hr.1], ?_, by simp [TypedDoc.parse, parseLosslessPara, hr.2],
+    by simp [TypedDoc.parse, parseDep3, hr.2], by simp [TypedDoc.parse, parseRepos, hr.1]⟩
+  intro hg
+  simp [TypedDoc.parse, parseCopyright, hg, hr.1]
+
+/-! ## Part H — the typed value and the lossless view, on arbitrary well-formed text -/
+
+/-- exactly how the two readers' values of a well-formed field differ: the lossy reader keeps the
+    empty first line of `Name:` + continuation lines as a leading `\n`; otherwise they are equal -/
+theorem C20_lossless_view_values (e : EntryS) :
+    (lossyEntry e).1 = e.content.1
+    ∧ (lossyEntry e).2 = (if e.v = [] ∧ e.conts ≠ [] then '\n' :: e.content.2 else e.content.2) := by
+  refine ⟨rfl, ?_⟩
+  simp only [lossyEntry, lossyValue, EntryS.content, EntryS.valueLines]
+  by_cases hv : e.v = []
+  · cases hc : e.conts with
+    | nil => simp [hv, Text.join]
+    | cons c cs => simp [hv, Text.join]
+  · simp [hv]
+
+/-- no field of the document is `Name:` with an empty first line followed by continuation lines -/
+def NoBlankFirstS (p : ParaS) : Prop :=
+  (p.first.v = [] → p.first.conts = []) ∧ ∀ e ∈ itemEntries p.rest, e.v = [] → e.conts = []
+
+theorem lossyEntry_eq_content (e : EntryS) (h : e.v = [] → e.conts = []) : lossyEntry e = e.content := by
+  have := C20_lossless_view_values e
+  apply Prod.ext this.1
+  rw [this.2]
+  by_cases hv : e.v = []
+  · simp [hv, h hv]
+  · simp [hv]
+
+theorem lossyPara_eq_content (p : ParaS) (h : NoBlankFirstS p) : lossyPara p = p.content := by
+  simp only [lossyPara, ParaS.content, lossyEntry_eq_content _ h.1]
+  congr 1
+  rw [← itemEntries_content]
+  simp only [lossyItems]
+  apply List.map_congr_left
+  intro e he
+  exact lossyEntry_eq_content e (h.2 e he)
+
+/-- **apt stanzas match the lossless view on well-formed input**: for every well-formed one-paragraph
+    text (any layout the grammar allows: comments, irregular white space, multi-line values) in which
+    no field is `Name:` + empty first line + continuation lines, the lossy reader (used by the apt
+    Release/Sources/Packages readers) and the lossless reader show the same paragraph, so the typed
+    value — or the error — obtained from either is the same, field by field -/
+theorem C20_lossless_view_stanza (spec : Spec) (lead : List Gap) (p : ParaS) (gaps : List Gap)
+    (hwf : (⟨lead, [(p, gaps)]⟩ : DocS).WF) (hb : NoBlankFirstS p) :
+    lyPara (⟨lead, [(p, gaps)]⟩ : DocS).str = .ok p.content
+    ∧ (∃ q, llPara (⟨lead, [(p, gaps)]⟩ : DocS).str = .ok q ∧ items q = p.content
+        ∧ fromLL spec q = fromLY spec p.content)
+    ∧ TypedDoc.parse (.lossyPara spec) (⟨lead, [(p, gaps)]⟩ : DocS).str
+        = TypedDoc.parse (.losslessPara spec) (⟨lead, [(p, gaps)]⟩ : DocS).str := by
+  have hj := C06.C06_joint_accept _ hwf
+  have hl : Lossy.read (⟨lead, [(p, gaps)]⟩ : DocS).str = .ok [p.content] := by
+    rw [hj.1]; simp [lossyDoc, lossyPara_eq_content p hb]
+  have hpar : paragraphs (⟨lead, [(p, gaps)]⟩ : DocS).tree = [p.node] := by
+    simp [paragraphs_tree]
+  have hly : lyPara (⟨lead, [(p, gaps)]⟩ : DocS).str = .ok p.content := by
+    simp [lyPara, Lossy.readPara, hl]
+  have hll : llPara (⟨lead, [(p, gaps)]⟩ : DocS).str = .ok p.node := by
+    simp [llPara, hj.2.1, hpar]
+  have hit : items p.node = p.content := items_para p
+  have heq : fromLL spec p.node = fromLY spec p.content := by
+    unfold fromLL fromLY
+    rw [get_eq_lookup, hit, pget_eq_lookup]
+  refine ⟨hly, ⟨p.node, hll, hit, heq⟩, ?_⟩
+  simp only [TypedDoc.parse, parseLossyPara, parseLosslessPara, hly, hll, heq]
+
+/-- the value of the field stored under `key` -/
+def valueAt (key : Str) : Spec → SV → Option Val
+  | f :: fs, v :: vs => if f.key = key then v else valueAt key fs vs
+  | _, _ => none
+
+theorem valueAt_fallback_same (key : Str) (alt : Option Str) (spec : Spec) (v : SV)
+    (hk : key ∈ specKeys spec) (hl : v.length = spec.length) :
+    valueAt key spec (fallback key alt spec v) = (valueAt key spec v).orElse (fun _ => alt.map Val.str) := by
+  induction spec generalizing v with
+  | nil => simp [specKeys] at hk
+  | cons f fs ih =>
+    cases v with
+    | nil => simp at hl
+    | cons x xs =>
+      simp only [fallback, valueAt]
+      by_cases hf : f.key = key
+      · simp only [hf, ↓reduceIte, valueAt]
+        cases x <;> simp
+      · simp only [hf, ↓reduceIte, valueAt]
+        apply ih xs
+        · simp only [specKeys, List.map_cons, List.mem_cons] at hk
+          rcases hk with hk | hk
+          · exact absurd hk.symm hf
+          · exact hk
+        · simpa using hl
+
+theorem valueAt_fallback_other (key key' : Str) (alt : Option Str) (spec : Spec) (v : SV) (hne : key' ≠ key) :
+    valueAt key' spec (fallback key alt spec v) = valueAt key' spec v := by
+  induction spec generalizing v with
+  | nil => cases v <;> rfl
+  | cons f fs ih =>
+    cases v with
+    | nil => rfl
+    | cons x xs =>
+      simp only [fallback]
+      by_cases hf : f.key = key
+      · have hkk : ¬ key = key' := fun e => hne e.symm
+        simp [hf, valueAt, hkk]
+      · simp only [hf, ↓reduceIte, valueAt]
+        by_cases hf' : f.key = key'
+        · simp [hf']
+        · simp [hf', ih xs]
+
+theorem fallback_length (key : Str) (alt : Option Str) (spec : Spec) (v : SV) :
+    (fallback key alt spec v).length = v.length := by
+  induction spec generalizing v with
+  | nil => cases v <;> rfl
+  | cons f fs ih =>
+    cases v with
+    | nil => rfl
+    | cons x xs =>
+      simp only [fallback]
+      split
+      · simp
+      · simp [ih xs]
+
+/-- a string-typed field of a value read by `from_paragraph` is the text under its key -/
+theorem valueAt_fromFields_str (g : Str → Option Str) (spec : Spec) (v : SV) (key : Str)
+    (h : fromFields g spec = .ok v)
+    (hstr : ∀ f ∈ spec, f.key = key → ∀ t, f.de t = .ok (.str t))
+    (hk : key ∈ specKeys spec) : valueAt key spec v = (g key).map Val.str := by
+  induction spec generalizing v with
+  | nil => simp [specKeys] at hk
+  | cons f fs ih =>
+    simp only [fromFields] at h
+    cases hr : readField g f with
+    | error e => rw [hr] at h; simp at h
+    | ok x =>
+      rw [hr] at h
+      simp only at h
+      cases hf : fromFields g fs with
+      | error e => rw [hf] at h; simp at h
+      | ok xs =>
+        rw [hf] at h
+        simp only [Except.ok.injEq] at h
+        subst h
+        simp only [valueAt]
+        by_cases hkey : f.key = key
+        · simp only [hkey, ↓reduceIte]
+          unfold readField at hr
+          rw [hkey] at hr
+          cases hg : g key with
+          | none =>
+            rw [hg] at hr
+            cases ho : f.optional with
+            | true => simp [ho] at hr; simp [← hr]
+            | false => simp [ho] at hr
+          | some t =>
+            rw [hg] at hr
+            simp only [hstr f (by simp) hkey t] at hr
+            simp at hr; simp [← hr]
+        · simp only [hkey, ↓reduceIte]
+          apply ih xs hf (fun f' hf' => hstr f' (by simp [hf']))
+          simp only [specKeys, List.map_cons, List.mem_cons] at hk
+          rcases hk with hk | hk
+          · exact absurd hk.symm hkey
+          · exact hk
+
+theorem fromFields_length (g : Str → Option Str) (spec : Spec) (v : SV) (h : fromFields g spec = .ok v) :
+    v.length = spec.length := by
+  induction spec generalizing v with
+  | nil => simp [fromFields] at h; simp [← h]
+  | cons f fs ih =>
+    simp only [fromFields] at h
+    cases hr : readField g f with
+    | error e => rw [hr] at h; simp at h
+    | ok x =>
+      rw [hr] at h
+      simp only at h
+      cases hf : fromFields g fs with
+      | error e => rw [hf] at h; simp at h
+      | ok xs => rw [hf] at h; simp at h; simp [← h, ih xs hf]
+
+/-- **DEP-3 header matches the lossless view**: the typed author is `Author`, else `From`, and the
+    typed description is `Description`, else `Subject`, of the paragraph the lossless reader shows —
+    what `dep3::lossless::PatchHeader::author()` / `description_field()` return for the same text -/
+theorem C20_lossless_view_dep3 (spec : Spec) (s : Str) (p : DNode) (v : SV)
+    (hp : llPara s = .ok p) (h : TypedDoc.parse (.dep3 spec) s = .ok (.single v))
+    (hA : kAuthor ∈ specKeys spec) (hD : kDescription ∈ specKeys spec)
+    (hstr : ∀ f ∈ spec, (f.key = kAuthor ∨ f.key = kDescription) → ∀ t, f.de t = .ok (.str t)) :
+    valueAt kAuthor spec v = ((Deb.get p kAuthor).orElse fun _ => Deb.get p kFrom).map Val.str
+    ∧ valueAt kDescription spec v
+        = ((Deb.get p kDescription).orElse fun _ => Deb.get p kSubject).map Val.str := by
+  simp only [TypedDoc.parse, parseDep3, hp] at h
+  cases hv : fromLL spec p with
+  | error e => rw [hv] at h; simp at h
+  | ok v0 =>
+    rw [hv] at h
+    simp only [Except.ok.injEq, TV.single.injEq] at h
+    subst h
+    have hff : fromFields (Deb.get p) spec = .ok v0 := by
+      unfold fromLL liftMsg at hv
+      cases hf : fromFields (Deb.get p) spec with
+      | ok x => rw [hf] at hv; simp at hv; rw [hv]
+      | error e => rw [hf] at hv; simp at hv
+    have hlen := fromFields_length _ spec v0 hff
+    have hAD : kDescription ≠ kAuthor := by decide
+    have h1 := valueAt_fromFields_str _ spec v0 kAuthor hff (fun f hf hk => hstr f hf (Or.inl hk)) hA
+    have h2 := valueAt_fromFields_str _ spec v0 kDescription hff (fun f hf hk => hstr f hf (Or.inr hk)) hD
+    have hlen' : (fallback kAuthor (Deb.get p kFrom) spec v0).length = spec.length := by
+      rw [fallback_length, hlen]
+    constructor
+    · rw [valueAt_fallback_other kDescription kAuthor _ spec _ (fun e => hAD e.symm),
+        valueAt_fallback_same kAuthor _ spec v0 hA hlen, h1]
+      cases Deb.get p kAuthor <;> cases Deb.get p kFrom <;> rfl
+    · rw [valueAt_fallback_same kDescription _ spec _ hD hlen',
+        valueAt_fallback_other kAuthor kDescription _ spec v0 hAD, h2]
+      cases Deb.get p kDescription <;> cases Deb.get p kSubject <;> rfl
+
+/-- the shipped DEP-3 struct has string-typed `Author` and `Description` fields -/
+theorem C20_table_dep3_strings :
+    ∀ s ∈ Gen.Structs.all, s.name = c!"dep3.PatchHeader" →
+      (kAuthor ∈ s.fields.map (·.key) ∧ kDescription ∈ s.fields.map (·.key))
+      ∧ ∀ f ∈ s.fields, (f.key = kAuthor ∨ f.key = kDescription) → f.ser = [] ∧ f.de = [] ∧ f.ty = c!"String" := by
+  decide +kernel
+
 end Deb822Verif.Props.C20
